@@ -383,10 +383,45 @@ def expand_steps(fam, base, dflt, steps):
 # ------------------------------------------------------------------------------------------------
 # cases
 # ------------------------------------------------------------------------------------------------
+def _int_meets_str(fam, steps, dflt):
+    """True if some int leaf sits under a key that is a str-typed parameter somewhere in the family. Such inputs are outside
+    the modelled space (ASSUMPTIONS): a number given on the command line for a str parameter is kept as the string "-3",
+    the same number inside a JSON dict is an int and is rejected - the str/YAML asymmetry of C02, not a C14 matter."""
+    str_names = {p["name"] for k in fam["classes"] for p in k["params"] if p["ty"][0] == "str"}
+    str_names |= {p["name"] for f in fam["funcs"] for p in f["params"] if p["ty"][0] == "str"}
+
+    def walk(key, r):
+        if "i" in r:
+            return key in str_names
+        if "d" in r:
+            return any(walk(k, v) for k, v in r["d"])
+        if "spec" in r:
+            return any(walk(k, v) for k, v in r["spec"]["ia"] + r["spec"]["dk"])
+        return False
+
+    for st in steps:
+        if walk(st["nested"][-1] if "nested" in st else None, st["raw"]):
+            return True
+    return dflt is not None and walk(None, dflt)
+
+
 def gen_cases_for_family(rng, fam, ncases):
     cases = []
-    names = [k["name"] for k in fam["classes"]]
     for j in range(ncases):
+        for attempt in range(8):
+            c = _gen_case(rng, fam)
+            if not _int_meets_str(fam, c["steps"], c["dflt"]):
+                break
+        else:
+            c = {"fam": fam, "base": c["base"], "dflt": None, "steps": [{"raw": {"s": c["base"]}}], "channel": "argv", "twin": None}
+            c["twin"] = _twin(c)
+        cases.append(c)
+    return cases
+
+
+def _gen_case(rng, fam):
+    names = [k["name"] for k in fam["classes"]]
+    if True:
         base = rng.choice(names)
         kind = rng.choice(["explicit", "explicit", "short", "short", "steps", "steps", "steps", "change", "change",
                            "change", "object", "default"])
@@ -445,8 +480,7 @@ def gen_cases_for_family(rng, fam, ncases):
             tw = expand_steps(fam, base, dflt, steps)
             if tw != steps:
                 twin = tw
-        cases.append({"fam": fam, "base": base, "dflt": dflt, "steps": steps, "channel": channel, "twin": twin})
-    return cases
+        return {"fam": fam, "base": base, "dflt": dflt, "steps": steps, "channel": channel, "twin": twin}
 
 
 def _P(name, ty, d=None):
